@@ -1,3 +1,143 @@
+(* C64 Dataset attributes survive HDF5 round trips.
+   Statements only; every proof is `exact <lemma>` from Disc/CodecProofs.v.
+   Model: Disc/CodecModel.v (values, abstract HDF5 tree, encode/decode per DatasetAttribute class with
+   the type_id dispatch, attribute-level histories over several datasets). *)
+From Coq Require Import List ZArith NArith Bool.
 From PLV Require Import Disc.CodecModel Disc.CodecProofs.
-Theorem stub0 : encode VNone = encode VNone. Proof. exact stub. Qed.
-Print Assumptions stub0.
+Import ListNotations.
+Open Scope Z_scope.
+
+(* ---- single values ---- *)
+
+(* for ALL well-formed nested values: reading what was written succeeds and yields the round-trip
+   image (Python scalars come back as numpy scalars, numpy.bool_ as a 0-d array; everything else,
+   including container kinds, key order, dtypes, shapes, interfaces, is identical) *)
+Theorem decode_encode : forall v, wf v = true -> decode (encode v) = Some (norm v).
+Proof. exact decode_encode_wf. Qed.
+Print Assumptions decode_encode.
+
+(* ... and the value read back has the same Python-level content (type-sensitive deep equality) *)
+Theorem decode_encode_value_preserved : forall v, wf v = true ->
+  exists v', decode (encode v) = Some v' /\ pyview v' = pyview v.
+Proof. exact value_preserved_l. Qed.
+Print Assumptions decode_encode_value_preserved.
+
+(* repeated write/read cycles stabilise after two rounds, and from then on are exact identities *)
+Theorem roundtrip_stabilises : forall v, norm (norm (norm v)) = norm (norm v).
+Proof. exact norm_stable. Qed.
+Print Assumptions roundtrip_stabilises.
+
+Theorem reread_is_identity : forall v, wf v = true ->
+  decode (encode (norm (norm v))) = Some (norm (norm v)).
+Proof. exact reread_fixpoint_l. Qed.
+Print Assumptions reread_is_identity.
+
+(* the type id written for a value is determined by (and determines) its kind: list / tuple / dict /
+   dataset / None / string / scalar / array are pairwise distinguished *)
+Theorem encode_injective_on_types : forall v, node_kind (encode v) = kind_of v.
+Proof. exact encode_kind. Qed.
+Print Assumptions encode_injective_on_types.
+
+(* with py_type the whole encoding is injective: no two different well-formed values share a tree *)
+Theorem encode_injective : forall v w, wf v = true -> wf w = true -> encode v = encode w -> v = w.
+Proof. exact encode_injective_wf. Qed.
+Print Assumptions encode_injective.
+
+(* ---- histories ---- *)
+
+(* for ALL histories (any length, any interleaving over any number of datasets): executing the
+   operations on HDF5 trees = encoding the result of executing them on a plain ordered
+   last-write-wins store of values; the Ok/Err outcome of every operation coincides *)
+Theorem history_refines_spec : forall h n,
+  run encode h (empty_world n) =
+  (wmap encode (fst (run vid h (empty_world n))), snd (run vid h (empty_world n))).
+Proof. exact history_refines. Qed.
+Print Assumptions history_refines_spec.
+
+(* hence every attribute of every dataset reads back as (the round-trip image of) the value the
+   last-write-wins store holds for it *)
+Theorem history_readback : forall h n i k, Forall wf_op h ->
+  read_tree (fst (run encode h (empty_world n))) i k =
+  option_map norm (get (fst (run vid h (empty_world n))) i k).
+Proof. exact history_readback_l. Qed.
+Print Assumptions history_readback.
+
+(* the store really is last-write-wins: characterisation of every operation (for any state w,
+   i.e. after any history; `enc` is encode for trees and the identity for values) *)
+Theorem readback_set : forall A (enc : val -> A) i k v w w',
+  step enc (OSet i k v) w = (w', SOk) -> get w' i k = Some (enc v).
+Proof. exact (@readback_set_l). Qed.
+Print Assumptions readback_set.
+
+Theorem set_existing_rejected : forall A (enc : val -> A) i k v w s,
+  nth_error w i = Some s -> has k s = true -> step enc (OSet i k v) w = (w, SErr).
+Proof. exact (@set_existing_rejected_l). Qed.
+Print Assumptions set_existing_rejected.
+
+Theorem readback_overwrite : forall A (enc : val -> A) i k v w,
+  (i < length w)%nat -> get (fst (step enc (OPut i k v) w)) i k = Some (enc v).
+Proof. exact (@readback_put_l). Qed.
+Print Assumptions readback_overwrite.
+
+Theorem readback_delete : forall A (enc : val -> A) i k w w',
+  step enc (ODel i k) w = (w', SOk) -> get w' i k = None.
+Proof. exact (@readback_del_l). Qed.
+Print Assumptions readback_delete.
+
+(* writes to one attribute never disturb another attribute *)
+Theorem other_attributes_untouched : forall A (enc : val -> A) o w j k,
+  match o with
+  | OSet _ k' _ | OPut _ k' _ | ODel _ k' => k <> k'
+  | OReopen _ => True
+  | _ => False
+  end -> get (fst (step enc o w)) j k = get w j k.
+Proof. exact (@frame_key_l). Qed.
+Print Assumptions other_attributes_untouched.
+
+(* copies are independent: an operation whose target is another dataset (in particular any later
+   write to the source of a copy) leaves a dataset exactly as it was *)
+Theorem copies_independent : forall A (enc : val -> A) o w j,
+  target o <> j -> nth j (fst (step enc o w)) [] = nth j w [].
+Proof. exact (@frame_dataset_l). Qed.
+Print Assumptions copies_independent.
+
+(* Dataset.write / Dataset.read: a copied attribute reads as the source's value; existing
+   attributes are kept unless overwrite is requested; everything else is unchanged *)
+Theorem readback_copy : forall A (enc : val -> A) i j keys ov w w' k,
+  step enc (OWrite i j keys ov) w = (w', SOk) ->
+  get w' j k = if memb k (eff_keys keys (nth i w [])) && (ov || negb (has k (nth j w [])))
+               then get w i k else get w j k.
+Proof. exact (@readback_write_l). Qed.
+Print Assumptions readback_copy.
+
+Theorem readback_snapshot : forall A (enc : val -> A) i j w w',
+  step enc (OSnap i j) w = (w', SOk) -> nth j w' [] = nth i w [].
+Proof. exact (@readback_snap_l). Qed.
+Print Assumptions readback_snapshot.
+
+Theorem reopen_is_identity : forall A (enc : val -> A) i w, fst (step enc (OReopen i) w) = w.
+Proof. exact (@reopen_identity_l). Qed.
+Print Assumptions reopen_is_identity.
+
+(* ---- non-vacuity ---- *)
+Example nested_value_roundtrip :
+  let v := VDict [(KStr [98], VTuple [VInt 1; VFloat 5 (-1); VStr [122]]);
+                  (KStr [97], VList [VNone; VList [VBool true; VNp DBool (NB false)]]);
+                  (KIdx 10, VArray (IAutograd true) DF32 [2] [NF 1 0; NF 3 (-1)])] in
+  wf v = true /\
+  decode (encode v) =
+    Some (VDict [(KStr [98], VTuple [VNp DI64 (NI 1); VNp DF64 (NF 5 (-1)); VStr [122]]);
+                 (KStr [97], VList [VNone; VList [VNp DBool (NB true); VArray INumpy DBool [] [NB false]]]);
+                 (KIdx 10, VArray (IAutograd true) DF32 [2] [NF 1 0; NF 3 (-1)])]).
+Proof. split; reflexivity. Qed.
+
+Example history_hyps_satisfiable :
+  let x := KStr [120] in let y := KStr [121] in
+  let h := [OSet 0 x (VInt 1); OSet 0 y (VList [VInt 2]); OSet 0 x (VInt 9); OWrite 0 1 [] false;
+            OPut 0 x (VTuple [VNone]); ODel 0 y; OSnap 0 2; OWrite 0 1 [x] true] in
+  Forall wf_op h /\
+  snd (run encode h (empty_world 3)) = [SOk; SOk; SErr; SOk; SOk; SOk; SOk; SOk] /\
+  read_tree (fst (run encode h (empty_world 3))) 1 x = Some (VTuple [VNone]) /\
+  read_tree (fst (run encode h (empty_world 3))) 1 y = Some (VList [VNp DI64 (NI 2)]) /\
+  read_tree (fst (run encode h (empty_world 3))) 2 y = None.
+Proof. repeat split; try reflexivity. repeat constructor. Qed.
